@@ -6,11 +6,106 @@ TLA+: Record!InitForged as the initial state, the data phase is the ordinary Rec
  * spec/Record_MC.tla (Forged = TRUE) explores every write/read sequence of both forged ends and emits scenarios;
  * harness/cmd/record forges client+server with random secrets and replays them (weak-on cases in their own process);
  * spec/Record_Trace.tla judges nil-ness, record framing, sequence numbers and the byte streams."""
+import json
 import random
 import record_lib as rl
 import vlib
 
 BULK = 70000     # three of these per direction: 210 000 bytes > recordSizeBoostThreshold (128 KB) + ramp-up
+
+
+def proc_histories(ctx, rng):
+    """Record_Proc enumerates every history of <= MaxLen calls (forge never-supported / AEAD / CBC / each weak suite, handshake,
+    EnableWeakCiphers) in one process; cmd/record replays each in a fresh process; Record_Trace follows the process state."""
+    maxlen = 3 if ctx.quick else 4
+    with open(ctx.scratch + "/Record_Proc_run.cfg", "w") as f:
+        f.write(open(ctx.scratch + "/Record_Proc.cfg").read().replace("MaxLen = 3", "MaxLen = %d" % maxlen))
+    res = ctx.tlc("Record_Proc", cfg="Record_Proc_run", workers=4, timeout=900)
+    if res.violated:
+        raise vlib.Machinery("Record_Proc: the model violates %s\n%s" % (res.violated, res.out[-2000:]))
+    hists = sorted(res.tagged("HIST"), key=lambda h: json.dumps(h, sort_keys=True))
+    kinds = {o["op"] for h in hists for o in h}
+    if not hists or kinds != {"forge", "hs", "enable"} or not any(
+            [o["op"] for o in h[:2]] == ["forge", "enable"] and h[0]["nil"] and h[2]["op"] == "forge" and not h[2]["nil"] for h in hists):
+        raise vlib.Machinery("Record_Proc: vacuous enumeration (%d histories, calls %s)" % (len(hists), kinds))
+    jobs = [{"h": i + 1, "ops": [{"op": o["op"], "id": o["id"], "vers": o["vers"], "ecsign": o["ecsign"]} for o in h]} for i, h in enumerate(hists)]
+
+    def replay(js, name):
+        by = {}
+        for e in ctx.drv("procs", {"histories": js}, prog=rl.PROG, name=name, timeout=1500):
+            by.setdefault(e["sc"] // 100, []).append(e)
+        if set(by) != {j["h"] for j in js}:
+            raise vlib.Machinery("procs: events missing for some histories")
+        return by
+    by = replay(jobs, "c27_procs")
+    order = [j["h"] for j in jobs]
+    rej_sc, stats, nev = rl.validate(ctx, by, order, "c27proc", 8 if ctx.quick else 16)
+    rej = {}
+    for sc, why in rej_sc.items():
+        rej.setdefault(sc // 100, (sc, why))
+    # ---- binding canaries: (1) drop the Enable event before a weak suite that forged, (2) claim a connection where nil was observed
+    def weak_ok(evs):
+        if sum(1 for e in evs if e["ev"] == "Enable") != 1:
+            return None
+        seen = False
+        for k, e in enumerate(evs):
+            if e["ev"] == "Enable":
+                seen = k
+            if seen is not False and e["ev"] == "Init" and e["mode"] == "forged" and not e["cnil"] and any(
+                    o["op"] == "forge" and o["id"] == e["suite"] and o["nil"] for h in hists for o in h[:1]):
+                return seen
+        return None
+    can = {}
+    for h in order:
+        if h in rej:
+            continue
+        k = weak_ok(by[h])
+        if k is not None and 10 ** 6 not in can:
+            c = json.loads(json.dumps(by[h]))
+            del c[k]
+            for e in c:
+                e["sc"] += 10 ** 8
+            can[10 ** 6] = c
+        nil = [i for i, e in enumerate(by[h]) if e["ev"] == "Init" and e["cnil"] and e["snil"]]
+        if nil and 10 ** 6 + 1 not in can:
+            c = json.loads(json.dumps(by[h]))
+            c[nil[0]]["cnil"] = c[nil[0]]["snil"] = False
+            for e in c:
+                e["sc"] += 2 * 10 ** 8
+            can[10 ** 6 + 1] = c
+        if len(can) == 2:
+            break
+    if len(can) < 2:
+        if not rej:
+            raise vlib.Machinery("C27 process histories: canaries could not be built")
+    else:
+        crej, _, _ = rl.validate(ctx, can, sorted(can), "c27proc_canary", 1)
+        hit = {sc // 10 ** 8 for sc in crej}
+        if hit != {1, 2}:
+            raise vlib.Machinery("C27 process histories: binding canary accepted by TLC (%s)" % sorted(hit))
+    # ---- confirm rejections in fresh processes
+    if rej:
+        rjobs = [j for j in jobs if j["h"] in rej]
+        by2 = replay(rjobs, "c27_procs_confirm")
+        rej2_sc, _, _ = rl.validate(ctx, by2, [j["h"] for j in rjobs], "c27proc_confirm", 4)
+        rej2 = {}
+        for sc, why in rej2_sc.items():
+            rej2.setdefault(sc // 100, (sc, why))
+        lost = [h for h in rej if rej2.get(h) != rej[h]]
+        if lost:
+            raise vlib.Machinery("C27 process histories: rejection of %s did not reproduce" % lost[:5])
+        for h, (sc, why) in sorted(rej.items()):
+            hist = hists[h - 1]
+            pos = sc % 100
+            call = hist[pos - 1]
+            before = [o["op"] if o["op"] == "enable" else "%s(0x%04x)" % (o["op"], o["id"]) for o in hist[:pos - 1]]
+            ctx.finding("proc:%s:0x%04x" % (why, call["id"]),
+                        "in one process, after the calls %s: %s(0x%04x) -> %s" % (before, call["op"], call["id"], why),
+                        {"history": hist, "failing_call": pos, "events": [{k: v for k, v in e.items() if k in ("ev", "mode", "suite", "cnil", "snil", "cerr", "serr", "m", "err")} for e in by2[h][:30]]})
+    else:
+        rl.need(stats, ["Proc", "Enable", "Enable.again", "Init.weakforged", "Init.forged", "Init.nil", "Init.hs", "Read.data"], "C27 process histories")
+    ctx.traces += len(jobs)
+    return {"histories": len(jobs), "max_calls": maxlen, "events_judged": nev, "matched_steps": {k: v for k, v in stats.items() if v}}
 
 
 def run(ctx):
@@ -88,16 +183,20 @@ def run(ctx):
         if short or not nbulk:
             raise vlib.Machinery("C27: bulk scenarios %s never delivered a full 16384-byte record in both directions" % short[:5])
         rl.need(out["stats"], ["Init.forged", "Init.nil", "Init.free", "Write", "Write.multi", "Write.split", "Read.data", "Read.partial", "Read.timeout", "Nonce"], "C27")
+    # ---- the suite table is process-global: histories of calls in ONE process (Record_Proc), each in a fresh process
+    proc = proc_histories(ctx, rng)
     work = [c for c in cells if c["expect"] == "work"]
     cov = {"evaluations": out["events"], "distinct_nontrivial": len({(j["vers"], j["suite"], j["weak"], str(j["ops"])) for j in jobs}),
            "rule": "every (version 1.0-1.2, suite id of any table + neighbours + extremes, weak off/on) cell forged on both ends; %d TLC-generated "
                    "read/write sequences per working cell + a bulk exchange (243 KB each way, then writes of 2^14 and 2^14+1 bytes at full record size) "
                    "for one cell per protection class x version (quick) / every working cell (thorough); evaluations = events judged by TLC, distinct = distinct (cell, scenario) pairs" % per,
            "bulk_cells": nbulk, "bulk_bytes_each_way": 3 * BULK + 16384 + 16385,
+           "process_histories": proc,
            "cells": len(cells), "cells_must_work": len(work), "cells_must_be_nil": len([c for c in cells if c["expect"] == "nil"]),
            "mc_scenarios": len(scns), "matched_steps": out["stats"], "canaries_rejected": out["canaries"],
            "samples": [{"vers": j["vers"], "suite": j["suite"], "weak": j["weak"], "ops": j["ops"][:4]} for j in jobs[:3]],
            "exhaustive": False}
     return "model_checking", cov, ["abstract AEAD: a record opens iff unaltered and (epoch, seq) agree",
                                    "suite tables dumped through the verif accessors are the code's tables",
-                                   "EnableWeakCiphers is meant to add suites (supported set after the call = union)"]
+                                   "EnableWeakCiphers is meant to add suites (supported set after the call = union)",
+                                   "process histories use one never-supported id, one AEAD and one CBC suite, every EnableWeakCiphers suite, TLS 1.2"]
